@@ -48,6 +48,8 @@ class MonitoredExecutor(Executor):
         self.meas_log: List[tuple] = []   # (virtual id, outcome)
         self.ret_log: List[tuple] = []    # shared-memory publications at the moment of ret_*
         self.ret_mismatch: List[str] = []
+        self.watch_host_view = False        # opt-in monitor: shared memory changes only at ret_* instructions
+        self.host_view_leaks: List[str] = []
         self.inflight_phys: set = set()   # ids handed out by the link model for responses not consumed yet
         self._instruction_handlers["meas_basis"] = self._instr_meas_basis
         self._instruction_handlers["breakpoint"] = self._instr_breakpoint
@@ -57,6 +59,18 @@ class MonitoredExecutor(Executor):
     def node_id(self) -> int:
         return self._node_id
 
+    def _host_view(self, subroutine_id) -> dict:
+        """Everything the host can currently read for the application of this subroutine."""
+        try:
+            shm = self._shared_memories[self._get_app_id(subroutine_id)]
+            view = {f"@{a}": list(v) for a, v in shm._arrays._arrays.items()}
+            for name, group in shm._registers.items():
+                for i, v in group._get_active_values():
+                    view[f"{name.name}{i}"] = v
+            return view
+        except Exception as e:  # noqa
+            return {"unreadable": f"{type(e).__name__}: {e}"}
+
     # ---- stepping ------------------------------------------------------------------------
     def _execute_command(self, subroutine_id, command):
         pc = self._program_counters[subroutine_id]
@@ -64,7 +78,17 @@ class MonitoredExecutor(Executor):
             self._program_counters[subroutine_id] += 1  # comments of debug transpilations
             return
             yield  # pragma: no cover
-        yield from super()._execute_command(subroutine_id, command)
+        before = self._host_view(subroutine_id) if self.watch_host_view else None
+        try:
+            yield from super()._execute_command(subroutine_id, command)
+        finally:
+            if before is not None and command.mnemonic not in ("ret_arr", "ret_reg"):
+                after = self._host_view(subroutine_id)
+                if after != before:
+                    diff = next((f"{k}: {before.get(k)} -> {after.get(k)}" for k in sorted(set(before) | set(after), key=str)
+                                 if before.get(k) != after.get(k)), "?")
+                    self.host_view_leaks.append(f"'{command.mnemonic}' at line {pc} changed what the host reads from the shared "
+                                                f"memory ({diff}); only ret_reg / ret_arr may")
         self.steps += 1
         self.pc_trace.append((subroutine_id, pc, command.mnemonic))
         if self.steps > self.step_limit:
